@@ -1,10 +1,15 @@
 #!/usr/bin/env python3
-"""Regenerates MANIFEST.json from scripts/checks.json (one entry per claimed property)."""
+"""Regenerates MANIFEST.json from scripts/checks/Cxx.json (one file per claimed property)."""
 import json, os
 V='/verif'
-checks=json.load(open(V+'/scripts/checks.json'))
+import glob, subprocess
+checks={}
+for f in sorted(glob.glob(V+'/scripts/checks/C*.json')):
+    checks[os.path.basename(f)[:-5]]=json.load(open(f))
 props=[json.loads(l) for l in open(V+'/properties.jsonl')]
-hooks=json.load(open(V+'/scripts/hooks.json'))
+# hook commits = commits in /repo whose subject starts with "verif:"
+hk=subprocess.run(['git','-C','/repo','log','--format=%h %s'],capture_output=True,text=True).stdout.split('\n')
+hooks={"source_commits":[l.split()[0] for l in hk if l.split()[1:2]==['verif:']][::-1]}
 man={
  "version":1,
  "setup_cmd":"cd /verif && ./check --setup",
